@@ -119,7 +119,7 @@ def scn_figblock(comm, shape, nprocs, root=0, cplx=False):
         g = Grid(eta, [None] * 4, h, name, comm, dtype=np.complex128 if cplx else float)
         lay = g.getLayout(name)
         g.getAllData()[:] = sl.local_block(sl.tokens(shape, complex if cplx else float), lay)
-        for d in ({0: 1}, {3: shape[3] - 1, 2: 0}, {1: range(1, 3)}, {}):
+        for d in ({0: 1}, {3: shape[3] - 1, 2: 0}, {1: range(1, 3)}, {}, {1: range(3, 3)}, {0: shape[0] + 1}):      # the last two: empty on every rank
             r = g.getBlockFromDict(dict(d), comm, root)
             out.append(None if r is None else [int(x) for x in r[3][:4]])
     return out
